@@ -68,6 +68,10 @@ class StepTimeout(Exception):
     pass
 
 
+class BadAttribute(Exception):
+    """an attribute the property speaks about cannot be read as a finite number (e.g. total_cost = nan)"""
+
+
 @contextlib.contextmanager
 def time_limit(seconds):
     """SIGALRM-based budget for one call (main thread only; a no-op elsewhere): a call that does not
@@ -288,6 +292,10 @@ def sset(s):
 
 def snapshot(alg, name):
     has_S = name not in ("NaiveElimination", "DecoupledGP")
+    if hasattr(alg, "total_cost"):
+        tc = alg.total_cost
+        if not np.isfinite(float(tc)):
+            raise BadAttribute(f"total_cost is {float(tc)!r}")
     snap = {
         "S": sset(alg.S) if has_S else [],
         "P": sset(alg.P) if name != "NaiveElimination" else [],
@@ -385,6 +393,20 @@ class RecOracle:
 def round_tables(case, r, n):
     """stream A: the Boolean tables of round `r` (0-based) for `n` regions — a pure function of the case"""
     prof = case["profile"]
+    if "script" in prof:  # explicit tables per round (the last entry repeats): "all" / "none" / list of (i, j)
+        ent = prof["script"][min(r, len(prof["script"]) - 1)]
+        out = {}
+        for k in ("dom", "cov", "pess"):
+            v = ent.get(k, "none")
+            t = np.zeros((n, n), dtype=bool)
+            if v == "all":
+                t[:] = True
+            elif v != "none":
+                for i, j in v:
+                    if i < n and j < n:
+                        t[i, j] = True
+            out[k] = t
+        return out
     h = hashlib.sha256(f"{case['seed']}:{r}".encode()).digest()
     rs = np.random.RandomState(int.from_bytes(h[:4], "little"))
     dec = prof.get("decay", 1.0) ** r
@@ -713,6 +735,47 @@ def structured_cases():
     out.append({"kind": "real", "alg": "VOGP", "cone": "orthant2", "m": 2, "K": len(Xc), "Y": [], "dataset": "scaled",
                 "shape": "const-feature", "X_raw": Xc, "Y_raw": Yc, "int_dtype": False, "eps": 0.25, "delta": 0.05,
                 "noise_var": 0.015625, "seed": 22, "extra": 2, "batch": 2, "var0": 0.25, "shrink": 0.5})
+    # decoupled batch selection vs the number of (design, objective) pairs on offer: batch sizes beyond m·K
+    # from the first call on, and batch sizes that exceed m·|active| only after a scripted elimination round
+    # (K=4, m=2, batch 6: two calls with 4 active designs, then designs 2 and 3 are discarded and the third call
+    # has 2·2 = 4 pairs for a batch of 6) — with and without costs, stepped to termination
+    K4, m2 = 4, 2
+    elim = {"name": "scripted-elimination",
+            "script": [{"cov": "all"}, {"cov": "all", "dom": [[2, 0], [3, 0]]}, {"cov": "all"}, {"cov": "all"},
+                       {"cov": "none"}]}
+    keep = {"name": "scripted-keep", "script": [{"cov": "all"}, {"cov": "all"}, {"cov": "none"}]}
+    for name in ("PaVeBaPartialGP-rect", "PaVeBaPartialGP-ell"):
+        for costs, budget in ((None, None), ([1.0, 0.5], None), ([1.0, 1.0], 64.0)):
+            for b in (m2 * K4 + 1, m2 * K4 + 3, 2 * m2 * K4):
+                c = {"kind": "table", "alg": name, "cone": "orthant2", "m": m2, "K": K4, "Y": Y2[:K4], "eps": 0.25,
+                     "delta": 0.05, "noise_var": 0.015625, "seed": 31, "extra": 2, "batch": b, "var0": 0.25,
+                     "shrink": 0.5, "profile": keep}
+                if costs is not None:
+                    c["costs"] = costs
+                if budget is not None:
+                    c["budget"] = budget
+                out.append(c)
+            for b in (5, 6, 7):
+                c = {"kind": "table", "alg": name, "cone": "orthant2", "m": m2, "K": K4, "Y": Y2[:K4], "eps": 0.25,
+                     "delta": 0.05, "noise_var": 0.015625, "seed": 32, "extra": 2, "batch": b, "var0": 0.25,
+                     "shrink": 0.5, "profile": elim}
+                if costs is not None:
+                    c["costs"] = costs
+                if budget is not None:
+                    c["budget"] = budget
+                out.append(c)
+        for b in (6, m2 * K4 + 1, 2 * m2 * K4):  # real geometry: the active set shrinks by itself
+            out.append({"kind": "real", "alg": name, "cone": "orthant2", "m": m2, "K": K4, "Y": Y2[:K4], "eps": 0.25,
+                        "delta": 0.05, "noise_var": 0.015625, "seed": 33, "extra": 2, "batch": b, "costs": [1.0, 0.5],
+                        "var0": 0.25, "shrink": 0.5, "conf_contraction": 4})
+    for costs in ([1.0, 1.0], [1.0, 0.5]):
+        for b in (m2 * K4 + 1, m2 * K4 + 3, 2 * m2 * K4):
+            out.append({"kind": "real", "alg": "DecoupledGP", "cone": "orthant2", "m": m2, "K": K4, "Y": Y2[:K4],
+                        "eps": 0.25, "delta": 0.05, "noise_var": 0.015625, "seed": 34, "extra": 2, "batch": b,
+                        "costs": costs, "budget": 20.0, "var0": 0.25, "shrink": 0.5})
+    out.append({"kind": "real", "alg": "DecoupledGP", "cone": "orthant2", "m": m2, "K": 1, "Y": Y2[:1], "eps": 0.25,
+                "delta": 0.05, "noise_var": 0.015625, "seed": 35, "extra": 2, "batch": 3, "costs": [1.0, 1.0],
+                "budget": 5.0, "var0": 0.25, "shrink": 0.5})
     # VOGP_AD: a member of P below the maximum depth gets refined (unreachable from the constructor:
     # P only receives nodes of maximal depth) — children must replace it in P
     for seed in (1, 2):
@@ -823,7 +886,13 @@ def _run(ctx, case, name, kind):
     forced = bool(case.get("force"))
     if forced:
         parent = list(case["force"]["parent"])
-    prev = snapshot(alg, name)
+    try:
+        prev = snapshot(alg, name)
+    except BadAttribute as e:
+        viol(ctx, f"total-cost-nonfinite:{name}", f"{name}: right after the constructor {e} — the reported total "
+             "cost must equal the summed costs of the evaluations requested (none yet)", pub)
+        ctx.case_done(pub, True)
+        return
     start_state = state_str(prev, parent)
     if not forced and init_model != state_str(prev, parent):
         viol(ctx, f"init-state:{name}", "state right after the constructor differs from the model's initial state",
@@ -968,7 +1037,14 @@ def _run(ctx, case, name, kind):
             viol(ctx, f"oracle-args:{name}", f"{name}: geometry predicate called irregularly: {orc.problems[0]}",
                           {k: v for k, v in case.items() if k != "N"}, kind="F", detail={"problems": orc.problems[:5]})
             del orc.problems[:]
-        cur = snapshot(alg, name)
+        try:
+            cur = snapshot(alg, name)
+        except BadAttribute as e:
+            viol(ctx, f"total-cost-nonfinite:{name}", f"{name}: after call {r + 1} {e} — the reported total cost "
+                 "must equal the summed per-objective costs of the evaluations requested", pub,
+                 detail={"call": r + 1, "requested": reqs})
+            envs.pop()
+            break
         was_done = finished_at is not None
         if name == "Auer" and centres is not None and borderline_from is None and len(prev["S"]) > 1:
             if auer_margin(alg, prev["S"], centres, rows) < 1e-9:
